@@ -21,9 +21,13 @@ STATE = {}
 
 def inputs(case):
     """input files are built once per job"""
-    key = json.dumps(case.get('inputs', {}), sort_keys=True)
+    key = json.dumps([case.get('names', True), case.get('hmap', False),
+                      case.get('shared_label', False)])
     if STATE.get('key') != key:
-        STATE['inp'] = ST.Inputs(with_names=case.get('names', True))
+        STATE['inp'] = ST.Inputs(with_names=case.get('names', True),
+                                 hmap=case.get('hmap', False),
+                                 shared_label=case.get('shared_label',
+                                                       False))
         STATE['key'] = key
     return STATE['inp']
 
@@ -84,21 +88,22 @@ def check_outputs_agree(ctx, cfg, res, stored_tree):
             clabel = 'correlation_coefficient' if iters == 1 \
                 else 'bootstrapping_probability'
             for r, c in zip(rows, results):
-                for lv in stored_tree.hierarchy:
-                    a = c[lv]['assignment']
+                for lv0 in stored_tree.hierarchy:
+                    a = c[lv0]['assignment']
+                    lv = stored_tree.level_to_name(lv0)
                     ctx.check(r.get(f'{lv}_label') == a,
                               'label column == JSON assignment')
                     ctx.check(r.get(f'{lv}_name') == str(
-                        stored_tree.label_to_name(lv, a, 'name')),
+                        stored_tree.label_to_name(lv0, a, 'name')),
                         'name column == assignment through the name table')
-                    if lv == stored_tree.leaf_level:
+                    if lv0 == stored_tree.leaf_level:
                         ctx.check(r.get(f'{lv}_alias') == str(
-                            stored_tree.label_to_name(lv, a, 'alias')),
+                            stored_tree.label_to_name(lv0, a, 'alias')),
                             'alias column == assignment through the alias '
                             'table')
                     v = r.get(f'{lv}_{clabel}')
                     ctx.check(v is not None and
-                              v == ('%.4f' % c[lv][conf]),
+                              v == ('%.4f' % c[lv0][conf]),
                               'confidence column == JSON value to four '
                               'decimals (probability, or correlation for a '
                               'single iteration)')
@@ -122,6 +127,11 @@ def check_outputs_agree(ctx, cfg, res, stored_tree):
                     ctx.check(bool(x['directly_assigned'])
                               == bool(y['directly_assigned']),
                               'HDF5 directly_assigned flag')
+                    ctx.check({k for k in x if k.startswith('runner_up')}
+                              == {k for k in y
+                                  if k.startswith('runner_up')},
+                              'HDF5 record has the same runner-up fields '
+                              'as the JSON record')
                     ya = y.get('runner_up_assignment', [])
                     xa = x.get('runner_up_assignment', [])
                     ctx.check(list(xa) == list(ya),
@@ -161,7 +171,12 @@ def check_failed_run(ctx, cfg, res):
 
 
 # ---------------------------------------------------------------- C19
-def check_clean(ctx, inp, cfg, work, before, res, planted=()):
+def check_clean(ctx, inp, cfg, work, before, res, planted=(),
+                sentinels=()):
+    gone = [p for p, content in sentinels
+            if not os.path.exists(p) or open(p).read() != content]
+    ctx.check(gone == [], 'a run neither removes nor changes files it did '
+              f'not create (another run\'s scratch); touched={gone[:3]}')
     after = inp.digests()
     changed = [k for k in before if before[k] != after.get(k)]
     allowed = []
